@@ -264,16 +264,14 @@ theorem names_noZero : ∀ l : List Str,
     simp only [Flatland.C14.Proofs.NoZero, List.map_cons, List.all_cons, Bool.and_eq_true] at this ⊢
     exact ⟨rfl, this⟩
 
-/-- **the inverse law at one position**, from any start element, strict or not -/
-theorem find_fq (root : Node) (start pos : Pos) (strict : Bool) (hok : PathOK root pos = true) :
-    find root start (fqName root pos) false strict = .many [pos] := by
-  unfold find
-  rw [tokenize_fqName root pos hok]
+/-- evaluating the compiled `fq_name()` from anywhere yields exactly the element -/
+theorem eval_fq (root : Node) (start pos : Pos) (strict : Bool) (hok : PathOK root pos = true) :
+    evalOps root strict (Op.top :: (segs root pos).map (fun s => Op.name (some (unescape s)))) start
+      = .ok [pos] := by
   have hz : Flatland.C14.Proofs.NoZero (Op.top :: (segs root pos).map (fun s => Op.name (some (unescape s)))) = true := by
     have := names_noZero (segs root pos)
     simp only [Flatland.C14.Proofs.NoZero, List.all_cons, Bool.and_eq_true] at this ⊢
     exact ⟨rfl, this⟩
-  simp only
   -- the work list on a slice-free op list is a single context
   have hw := Flatland.C14.Proofs.work_level root strict _ _ (Nat.le_refl _) hz [start]
   simp only [List.map_cons, List.map_nil] at hw
@@ -282,6 +280,22 @@ theorem find_fq (root : Node) (start pos : Pos) (strict : Bool) (hok : PathOK ro
   simp only [Flatland.C14.Spec.flatMapM, Flatland.C14.Proofs.denOps_of_runCtx, runCtx]
   rw [runCtx_segs root strict pos root [] hok rfl]
   simp
+
+/-- **the inverse law at one position**, from any start element, strict or not -/
+theorem find_fq (root : Node) (start pos : Pos) (strict : Bool) (hok : PathOK root pos = true) :
+    find root start (fqName root pos) false strict = .many [pos] := by
+  unfold find
+  rw [tokenize_fqName root pos hok]
+  simp only [eval_fq root start pos strict hok]
+  rfl
+
+/-- the same through `find_one` / `single=True`: the element itself -/
+theorem find_one_fq (root : Node) (start pos : Pos) (strict : Bool) (hok : PathOK root pos = true) :
+    find root start (fqName root pos) true strict = .one (some pos) := by
+  unfold find
+  rw [tokenize_fqName root pos hok]
+  simp only [eval_fq root start pos strict hok]
+  rfl
 
 /-- the root's `fq_name()` is `/` -/
 theorem fqName_root (root : Node) : fqName root [] = ['/'] := rfl
@@ -382,5 +396,51 @@ theorem C13_full_fails : ¬ C13_Full := by
   have hfq : fqName witnessEmpty [0] = fqName witnessEmpty [] := by decide
   rw [hfq, find_fq witnessEmpty [] [] true rfl] at hinv
   simp at hinv
+
+/-- Dict{"a\\.b": String} -/
+def witnessBackslash : Node := .mk .map ['r'] [.mk .scalar ['a', '\\', '.', 'b'] []]
+
+theorem witnessBackslash_inv : TreeInv witnessBackslash := by
+  intro p k nm kids h
+  match p, h with
+  | [], h =>
+    simp only [witnessBackslash, Node.get?, Option.some.injEq, Node.mk.injEq] at h
+    obtain ⟨rfl, rfl, rfl⟩ := h
+    refine ⟨by simp, ?_, by simp⟩
+    intro _ i c hc
+    match i, hc with
+    | 0, hc => simp at hc; subst hc; simp [findName, Node.name]
+    | i + 1, hc => simp at hc
+  | [0], h =>
+    simp only [witnessBackslash, Node.get?, List.getElem?_cons_zero, Option.some.injEq, Node.mk.injEq] at h
+    obtain ⟨rfl, rfl, rfl⟩ := h
+    exact ⟨by simp, by simp, by simp⟩
+  | 0 :: j :: q, h => simp [witnessBackslash, Node.get?] at h
+  | (i + 1) :: q, h => simp [witnessBackslash, Node.get?] at h
+
+/-- KF-C13-a: the field named `a\.b` has `fq_name()` `/a\.b`, which `find` reads as the name
+    `a.b` and, strictly, raises LookupError -/
+theorem C13_full_fails_backslash : ¬ Inverse witnessBackslash := by
+  intro h
+  have hinv := h.2 [] [0] rfl rfl
+  unfold isInverseAt at hinv
+  have hfq : fqName witnessBackslash [0] = slashJoin [['a', '\\', '.', 'b']] := by decide
+  have hclean : cleanB true ['a', '\\', '.', 'b'] = true := by
+    simp [cleanB_cons, isEscapable, cleanB_nil]
+  have hplain : PlainSeg ['a', '\\', '.', 'b'] := ⟨by decide, by decide, by decide, by decide⟩
+  have htok := tokenize_segs ['a', '\\', '.', 'b'] [] ⟨by simp, hclean⟩
+    (by intro x hx; simp at hx; subst hx; exact hplain)
+  have hun : unescape ['a', '\\', '.', 'b'] = ['a', '.', 'b'] := by
+    simp [unescape_cons, isUnescapable, unescape_nil]
+  unfold find at hinv
+  rw [hfq, htok] at hinv
+  simp only [List.map_cons, List.map_nil, hun] at hinv
+  have hz : Flatland.C14.Proofs.NoZero [Op.top, Op.name (some ['a', '.', 'b'])] = true := by decide
+  have hw := Flatland.C14.Proofs.work_level witnessBackslash true _ _ (Nat.le_refl _) hz [[]]
+  simp only [List.map_cons, List.map_nil] at hw
+  unfold evalOps at hinv
+  rw [hw] at hinv
+  revert hinv
+  decide
 
 end Flatland.C13.Proofs
